@@ -26,8 +26,11 @@ def gen_cases(tier):
     cases = []
     for i in range(n_sys):
         rng = family.rng_for(sd, PROP, i)
-        shape = i % 6
+        shape = i % 8
         nv = rng.choice([2, 3, 3, 4, 4, 5, 6])
+        if shape >= 6:
+            cases.append(kaykobad_case(rng, i + 1, tier))
+            continue
         vs = gen.VARS6[6 - nv :]
         ne = 1 if shape in (0, 1, 2) else rng.choice([1, 2, 2])
         elim = rng.sample(vs, min(ne, len(vs) - 1) or 1)
@@ -60,6 +63,57 @@ def gen_cases(tier):
     if tier == "thorough":
         cases += exhaustive_cases(len(cases))
     return cases
+
+
+def kaykobad_case(rng, cid, tier):
+    """One term with 2-3 eliminated variables and one context row per eliminated variable whose signs
+    match the term (as tactics 1 and 3 require) in one direction; off-diagonal entries range from
+    dominated to dominating, with occasional wrong signs: the matrix conditions must do the rejecting."""
+    ne = rng.choice([2, 3, 3])
+    ys = ["y1", "y2", "y3"][:ne]
+    keepv = ["x", "w"]
+    a = {y: rng.choice([-3, -2, -1, 1, 2, 3]) for y in ys}
+    term = (dict(a, **{rng.choice(keepv): rng.choice([-2, -1, 1, 2])}), rng.randint(-3, 8))
+    direction = rng.choice([1, -1])          # 1: signs as refining needs them, -1: as relaxing needs them
+    ctx = []
+    heavy = rng.random() < 0.5 and ne == 3
+    if heavy:
+        # column-heavy: every other row leans on one column; each lean alone is dominated by the
+        # term's coefficient there, together they are not (the accumulated condition must reject)
+        jstar = rng.randrange(ne)
+        sgn = {y: (1 if a[y] > 0 else -1) for y in ys}
+        for y in ys:
+            a[y] = sgn[y] * 2
+        a[ys[jstar]] = sgn[ys[jstar]] * 3
+        term = (dict(a, **{rng.choice(keepv): rng.choice([-2, -1, 1, 2])}), rng.randint(-3, 8))
+        for i_, y in enumerate(ys):
+            co = {y: sgn[y] * direction}
+            if i_ != jstar:
+                co[ys[jstar]] = sgn[ys[jstar]] * direction
+            if rng.random() < 0.4:
+                co[rng.choice(keepv)] = rng.choice([-1, 1])
+            ctx.append((co, rng.randint(0, 3)))
+    for i_, y in enumerate([] if heavy else ys):
+        co = {}
+        for j_, z in enumerate(ys):
+            sg = (1 if a[z] > 0 else -1) * direction
+            if i_ == j_:
+                co[z] = sg * rng.choice([1, 2, 3])
+            else:
+                m = rng.choice([0, 0, 1, 1, 2, 3, -1])
+                if m:
+                    co[z] = sg * m
+        if rng.random() < 0.6:
+            co[rng.choice(keepv)] = rng.choice([-2, -1, 1, 2])
+        ctx.append((co, rng.randint(-2, 6)))
+    if rng.random() < 0.3:
+        ctx.append(gen.rterm_raw(rng, ys + keepv))
+    rng.shuffle(ctx)
+    S = [term] + ([gen.rterm_raw(rng, keepv)] if rng.random() < 0.3 else [])
+    cfgs = [(op, o, s_) for op in ("refine", "relax") for o in ([1], [3], [1, 2, 3, 4, 5], [3, 1]) for s_ in (False,)]
+    if tier == "quick":
+        cfgs = rng.sample(cfgs, 6)
+    return {"id": cid, "S": S, "ctx": ctx, "elim": ys, "cfgs": cfgs}
 
 
 def exhaustive_cases(base):
